@@ -127,13 +127,16 @@ def init (t : Table) : St := { si := [], seen := [], queue := endNodes t }
 def sweepRaw (t : Table) (greedy : Bool) (ign : List Int) (pick : St → Nat) : Option (List (Int × Nat)) :=
   (loop t greedy ign (branchNodes t) pick (t.length + 1) (init t)).map (·.si)
 
-/-- "Fix branches that were ignored": every ignored end node's small segment takes the index of the
-segment's last node (`none`: `[...][0]` on an empty list — `IndexError`). -/
+/-- One round of "Fix branches that were ignored": the small segment of the ignored end node `tn` takes the
+index of the segment's last node (`none`: `[...][0]` on an empty list — `IndexError`). -/
+def fixStep (t : Table) (si : List (Int × Nat)) (tn : Int) : Option (List (Int × Nat)) :=
+  match (smallSegments t).find? (fun s => s.head? == some tn) with
+  | none => none
+  | some seg => some (siUpdate si seg (siGetD si (seg.getLast?.getD tn)))
+
+/-- `for tn in nodes[(type == "end") & node_id.isin(to_ignore)]: …` (table order). -/
 def fixIgnored (t : Table) (ign : List Int) (si : List (Int × Nat)) : Option (List (Int × Nat)) :=
-  ((endNodes t).filter fun e => ign.contains e).foldlM (fun si tn =>
-    match (smallSegments t).find? (fun s => s.head? == some tn) with
-    | none => none
-    | some seg => some (siUpdate si seg (siGetD si (seg.getLast?.getD tn)))) si
+  ((endNodes t).filter fun e => ign.contains e).foldlM (fixStep t) si
 
 /-- `strahler_index` on the Python path, as a column `node id ↦ index`. -/
 def sweep (t : Table) (greedy : Bool) (ign : List Int) (pick : St → Nat) : Option (Int → Nat) :=
